@@ -83,7 +83,9 @@ fn judge_no_collapse(plan: &ClientPlan, run: &client::ClientRun, out: &mut RunOu
     }
     let reads = run.requests_of(0).iter().filter(|r| (r.frame[0], r.frame[1]) == (0x06, 0xc0)).count();
     // connections opened while read_card itself ran (what Feig::new did before is not its business)
-    let opened_during = run.conns.iter().filter(|c| c.opened_seq >= o.log_from && c.opened_seq < o.log_to).count();
+    // (a client that connects lazily opens its first connection here: that is not a reconnect)
+    let had_one = run.conns.iter().any(|c| c.opened_seq < o.log_from);
+    let opened_during = run.conns.iter().filter(|c| c.opened_seq >= o.log_from && c.opened_seq < o.log_to).count().saturating_sub(if had_one { 0 } else { 1 });
     if !matches!(o.result, OpResult::Ok(OkVal::Membership(_))) || opened_during != 0 || reads != 1 {
         out.fail(
             "timeout_collapsed",
